@@ -77,7 +77,7 @@ class G:
     def build(self, variant='G1'):
         PM, tm = self.PM, self.tm
         r = self.c.root()
-        if variant in ('G2', 'G3', 'G4', 'G5'):
+        if variant in ('G2', 'G3', 'G4', 'G5', 'G6'):
             return self._build_undo_chains(variant)
         r['a'] = PM()
         r['g'] = PM()
@@ -151,6 +151,22 @@ class G:
             self._undo_last('t6 undo t5: back-pointer to the second record of A in t4')
             r['keep']['n'] = 1
             self.commit('t7 unrelated')
+        elif variant == 'G6':
+            # an object that is garbage for a while is linked back in by an undo, and a further undo then writes it
+            # with a back-pointer to a revision older than the one that was current while it was garbage
+            A['v'] = 2
+            self.commit('t2 A.v = 2')
+            import base64
+            t2 = self.s.lastTransaction()
+            del r['A']
+            self.commit('t3 unlink A: A and B are garbage')
+            r['keep']['n'] = 1
+            self.commit('t4 unrelated')
+            t3 = [t.tid for t in self.s.iterator()][-2]
+            self.db.undo(base64.encodebytes(t3).rstrip(), self.tm.get())
+            self.commit('t5 undo t3: A is linked again, still in the state of t2')
+            self.db.undo(base64.encodebytes(t2).rstrip(), self.tm.get())
+            self.commit('t6 undo t2: A back to the state of t1 (back-pointer into the oldest part)')
         elif variant == 'G5':
             # the holder stays reachable; what it referred to is garbage for a while and is linked back in by an undo
             # (the undo record of A is a back-pointer to a revision older than any pack time in between)
